@@ -10,6 +10,8 @@ import (
 	"sync"
 	"time"
 
+	"github.com/ozontech/file.d/pipeline"
+
 	"verif/harness/batchdrv"
 	"verif/harness/hmain"
 	"verif/harness/hx"
@@ -185,6 +187,25 @@ func gen(c *hmain.Ctx) {
 		add("maintenance", hx.L(cfgSx(r.Range(1, 3), r.Range(1, 3), r.Range(10, 30), retry, r.Bool(), 1, r.Range(1, 3)), hx.L(mkAdder(r.Range(4, 16), true)), plan(20, retry),
 			hx.L(hx.I(0), hx.L(hx.I(0), hx.I(0), hx.I(0), hx.I(r.Range(1, 20))))))
 	}
+	// 7b. Add after Stop (batch.go Add: `if b.shouldStop { unlock; return }`) on the retriable batcher: one adder fills batches
+	//    that fail, a second one wakes up 15-40 ms after Stop was called.  Its events are dropped without a label: never
+	//    sealed, never sent, never handed to the dead queue, never committed (monitors: commits / dead-queue hand-overs only of
+	//    added events)
+	for i := 0; i < 10*c.Scale; i++ {
+		nextID = 0
+		parents = false
+		retry := r.Range(0, 2)
+		first := mkAdder(r.Range(2, 5), false)
+		var late []hx.Sx
+		late = append(late, hx.L(hx.I(1), hx.I(r.Range(15, 40))))
+		for k := r.Range(1, 3); k > 0; k-- {
+			nextID++
+			late = append(late, hx.L(hx.I(0), hx.I(nextID), hx.I(r.Range(1, 9)), hx.I(0)))
+		}
+		p := hx.L(hx.L(hx.I(r.Range(1, 3)), hx.I(retry+2)), hx.L(hx.I(0), hx.I(r.Intn(2))))
+		add("add-after-stop", hx.L(cfgSx(r.Range(1, 2), r.Range(1, 2), 10, retry, r.Bool(), 1, 2), hx.L(first, hx.L(late...)), p, hx.L(hx.I(1), hx.I(r.Range(2, 9)))))
+	}
+	getBackoffOracle(c)
 	// 9. which = 2 (route.go): the REAL output plugins behind a real Router with a dead queue, against scripted far ends; the
 	//    cases run while the batcher traces above are being recorded
 	routeJobs := genRouteJobs(c)
@@ -195,23 +216,24 @@ func gen(c *hmain.Ctx) {
 	emitRouteJobs(c, routeJobs)
 }
 
-// 8. which = 1: the dead-queue wiring of fd/file.d.go (wiring.go).  Stream 'fd-wiring': configurations in which a wrong
-//    wiring cannot hide behind equal configs only where it is harmless — one pipeline; several pipelines of which at most one
-//    has a dead queue; several with the SAME dead-queue config — all must start every plugin with its own config.
-//    Stream 'fd-wiring-distinct' (2..4 pipelines with DIFFERENT dead-queue configs) is the witness family of the defect
-//    C09-deadqueue-config-shared (notes/finding-C09-deadqueue-config-shared.md, repaired by /repo commit a22405c; witness in
-//    corpus/C09): getStaticInfo stored the parsed dead-queue config into the registry's own PluginStaticInfo while all
-//    pipelines are parsed before any is started, so every dead queue of that plugin type started with the config parsed
-//    last.  A regression to the shared pointer makes every case of this stream Violate (kind-101 record, m_no_panic).
+//  8. which = 1: the dead-queue wiring of fd/file.d.go (wiring.go).  Stream 'fd-wiring': configurations in which a wrong
+//     wiring cannot hide behind equal configs only where it is harmless — one pipeline; several pipelines of which at most one
+//     has a dead queue; several with the SAME dead-queue config — all must start every plugin with its own config.
+//     Stream 'fd-wiring-distinct' (2..4 pipelines with DIFFERENT dead-queue configs) is the witness family of the defect
+//     C09-deadqueue-config-shared (notes/finding-C09-deadqueue-config-shared.md, repaired by /repo commit a22405c; witness in
+//     corpus/C09): getStaticInfo stored the parsed dead-queue config into the registry's own PluginStaticInfo while all
+//     pipelines are parsed before any is started, so every dead queue of that plugin type started with the config parsed
+//     last.  A regression to the shared pointer makes every case of this stream Violate (kind-101 record, m_no_panic).
 func genWiring(c *hmain.Ctx) {
 	r := c.R
 	cfg9 := hx.L(hx.I(1), hx.I(1), hx.I(0), hx.I(20), hx.I(1), hx.I(0), hx.I(1), hx.I(1), hx.I(1))
 	mk := func(tags ...string) hx.Sx { return hx.L(cfg9, hx.Ss(tags), hx.L(), hx.L(hx.I(0), hx.I(0))) }
+	mkHTTP := func(tags ...string) hx.Sx { return hx.L(cfg9, hx.Ss(tags), hx.L(), hx.L(hx.I(0), hx.I(1))) }
 	do := func(stream string, cs hx.Sx) {
 		n, dq := 0, 0
 		for _, t := range hx.Items(hx.Items(cs)[1]) {
 			n++
-			if hx.Str(t) != "" {
+			if tag := hx.Str(t); tag != "" && tag != "-" && tag[0] != '!' {
 				dq++
 			}
 		}
@@ -239,6 +261,40 @@ func genWiring(c *hmain.Ctx) {
 		}
 		do("fd-wiring", mk(tags...))
 	}
+	// an EMPTY deadqueue section is no dead queue (the main output still starts with its own config, nothing else does)
+	do("fd-wiring-empty-section", mk("-"))
+	do("fd-wiring-empty-section", mk("a", "-", ""))
+	do("fd-wiring-empty-section", mkHTTP("-", "b"))
+	// a MALFORMED deadqueue section (no type / unregistered type / a config the plugin rejects) or a rejected main-output config:
+	// fd must refuse to start — a pipeline that silently ran WITHOUT the dead queue its configuration asks for would lose
+	// every given-up batch — and must not have started any plugin of any pipeline
+	for _, bad := range []string{"!notype", "!unknown", "!badcfg", "!mainbad"} {
+		do("fd-wiring-refused", mk(bad))
+		do("fd-wiring-refused", mk("a", bad))
+		tags := []string{"", "b", "c"}
+		tags[r.Intn(3)] = bad
+		do("fd-wiring-refused", mk(tags...))
+		c.W.Count("fd wiring: start-up must be refused (" + bad[1:] + ")")
+	}
+	for _, bad := range []string{"!mainnotype", "!mainunknown", "!nooutput"} { // no usable main output at all
+		do("fd-wiring-refused", mk("a", bad))
+		c.W.Count("fd wiring: start-up must be refused (" + bad[1:] + ")")
+	}
+	// the product's own way down: FileD.Stop(ctx) (HTTP server on, as in production) stops every pipeline; every started
+	// plugin is stopped exactly once and a dead queue only after the main output that drains into it (Router.Stop)
+	do("fd-wiring-stop", mkHTTP("a"))
+	do("fd-wiring-stop", mkHTTP(""))
+	do("fd-wiring-stop", mkHTTP("a", "", "b"))
+	for i := 0; i < 2*c.Scale; i++ {
+		n := r.Range(2, 4)
+		tags := make([]string, n)
+		for k := range tags {
+			if r.Chance(2, 3) {
+				tags[k] = fmt.Sprintf("s%d", k)
+			}
+		}
+		do("fd-wiring-stop", mkHTTP(tags...))
+	}
 	do("fd-wiring-distinct", mk("a", "b"))
 	do("fd-wiring-distinct", mk("a", "", "b"))
 	for i := 0; i < 4*c.Scale; i++ {
@@ -248,6 +304,31 @@ func genWiring(c *hmain.Ctx) {
 			tags[k] = fmt.Sprintf("t%d", k)
 		}
 		do("fd-wiring-distinct", mk(tags...))
+	}
+}
+
+// pipeline.GetBackoff (backoff.go; the s3 output's upload retry): cenkalti's WithMaxRetries around an ExponentialBackOff with
+// RandomizationFactor 0.5 — exactly attemptNum pauses, the k-th at least minRetention * multiplier^k / 2, then Stop (a negative
+// duration).  No sleeping: the pauses are only computed.
+func getBackoffOracle(c *hmain.Ctx) {
+	for _, n := range []uint64{0, 1, 2, 5} {
+		for _, mult := range []float64{1, 2, 3} {
+			bo := pipeline.GetBackoff(10*time.Millisecond, mult, n)
+			bo.Reset()
+			lo, k, grow := float64(5*time.Millisecond), uint64(0), true
+			for k <= n+3 {
+				d := bo.NextBackOff()
+				if d < 0 {
+					break
+				}
+				if float64(d) < lo {
+					grow = false
+				}
+				lo *= mult
+				k++
+			}
+			c.W.Oracle("getbackoff-retries", k == n && grow, fmt.Sprintf("GetBackoff(10ms, %.0f, %d): %d pauses before Stop, growing as configured: %v", mult, n, k, grow))
+		}
 	}
 }
 
@@ -325,6 +406,6 @@ func runJobs(c *hmain.Ctx, jobs []*job) {
 
 func main() {
 	hmain.Run(&hmain.Prop{ID: "C09",
-		Rule: "each case = (retriable batcher config incl. AttemptNum and dead queue, Add scripts, per-batch failure plan) run on the real RetriableBatcher + Router.Fail + dead-queue Batcher; observable = label trace of both batchers. Exhaustive stream: retry in {-1000000,-7,-3,-2,-1,0,1,2,3} x consecutive failures 0..retry+3 (0..4 for negative counts) x dead queue on/off. Streams 'backoff-stop' (MinRetention 1 h: backoff.Stop on the first failure; retry {-1,0,3} x failures 0..2 x dead queue), 'backoff-growing' (MinRetention 6..14 ms, Multiplier 1.5/2/3, 4..5 consecutive failures: pause k >= MinRetention*Multiplier^k/2) and 'maintenance' (MaintenanceFn every 1..20 ms) carry the backoff / maintenance options in the stop tuple. which = 1 (streams 'fd-wiring', 'fd-wiring-distinct'): N pipelines parsed and started by fd.FileD, each output / dead-queue plugin reports the config it was started with. which = 2 (streams 'route-*'): case = (plugin kind, dead queue, retry, fatal, strict, split_batch, workers, batch size, batches, answer script, tail answer) run on the REAL elasticsearch / http / splunk / loki / socket / clickhouse / gelf output behind a real Router with a dead-queue plugin against a scripted far end; observable = (requests seen, Fatal log entries, per event (commits by main, handed to dead queue, commits by dead queue)). Every case is non-trivial; distinct = distinct case text.",
+		Rule: "each case = (retriable batcher config incl. AttemptNum and dead queue, Add scripts, per-batch failure plan) run on the real RetriableBatcher + Router.Fail + dead-queue Batcher; observable = label trace of both batchers. Exhaustive stream: retry in {-1000000,-7,-3,-2,-1,0,1,2,3} x consecutive failures 0..retry+3 (0..4 for negative counts) x dead queue on/off. Streams 'backoff-stop' (MinRetention 1 h: backoff.Stop on the first failure; retry {-1,0,3} x failures 0..2 x dead queue), 'backoff-growing' (MinRetention 6..14 ms, Multiplier 1.5/2/3, 4..5 consecutive failures: pause k >= MinRetention*Multiplier^k/2) and 'maintenance' (MaintenanceFn every 1..20 ms) carry the backoff / maintenance options in the stop tuple. which = 1 (streams 'fd-wiring', 'fd-wiring-distinct'): N pipelines parsed and started by fd.FileD, each output / dead-queue plugin reports the config it was started with. which = 2 (streams 'route-*'): case = (plugin kind, dead queue, retry, fatal, strict, split_batch, workers, batch size, batches, answer script, tail answer) run on the REAL elasticsearch / http / splunk / loki / socket / clickhouse / gelf output behind a real Router with a dead-queue plugin against a scripted far end; observable = (requests seen, Fatal log entries, per event (commits by main, handed to dead queue, commits by dead queue)). Round 5 (coverage): stream 'add-after-stop' (an adder that wakes up after Stop); oracle 'getbackoff-retries' (pipeline.GetBackoff); which = 1 streams 'fd-wiring-empty-section' (deadqueue:{} = none), 'fd-wiring-refused' (malformed dead-queue / main-output sections: fd.Start must refuse and start nothing; Fatal is turned into a panic by a fatal hook on logger.Instance), 'fd-wiring-stop' (HTTP on, FileD.Stop: every plugin stopped once, dead queue after its main output; Stop records (0 109 i role n)); which = 2: answers a >= 1000 carry a body class (a / 1000) and an optional 12th case element carries elasticsearch option bits (1 process_response, others must not change the way): streams 'route-ack-body' (exhaustive over bodies under a 2xx x {elasticsearch with / without process_response, splunk} x dead queue x retry 0/1) and 'route-es-options' (gzip, api key, basic auth, ingest pipeline, trailing slash, index_format over event fields, oversized events, TLS + ca_cert, empty index_values; oracle 'es-request-shape' on every request). Every case is non-trivial; distinct = distinct case text.",
 		Gen:  gen, Exec: exec})
 }
